@@ -359,6 +359,12 @@ def cases(tier, seed):
     for sh in shapes:
         for sk in ('none', 'ecdsa'):
             cs.append(('data_names', {'shape': sh, 'signer': sk, 'rmin': 69}))
+    # long names: the Name element itself (and a component) with a 3-byte length, alone and next to symbolic components
+    for sh in ([['L', 260]], [[1, 1], ['L', 248]], [['L', 251], [1, 1]], [[1, 2], ['L', 300], [3, 1]]):
+        for sk in ('none', 'ecdsa'):
+            cs.append(('data_names', {'shape': sh, 'signer': sk, 'rmin': 69}))
+        for sk, app in (('none', False), ('ecdsa', True), ('digest', False)):
+            cs.append(('interest_names', {'shape': sh, 'signer': sk, 'app': app, 'rmin': 69}))
     if quick:
         lens = list(range(120, 261)) + list(range(65410, 65541, 2))
     else:
